@@ -226,7 +226,13 @@ def main(tier, replay=None):
     pool.close()
     pool.join()
     recs = list(rc) + list(rp)
-    traces = [{k: t[k] for k in t if k not in ('sizes', 'units')} for t in recs]
+    # a family member that the tree under test rejects is not C20's subject: noted, and what completed is still judged
+    failed = [t for t in recs if t.get('error')]
+    for t in failed[:5]:
+        v.note('C20: family %s/%s: a member was rejected by the tree under test (%s); judged on the sizes that completed'
+               % (t['family'], t['api'], t['error']))
+    recs = [t for t in recs if (len(t['w']) >= 2 if t['kind'] == 'ratio' else len(t['q']) >= 1)]
+    traces = [{k: t[k] for k in t if k not in ('sizes', 'units', 'error')} for t in recs]
     for t in traces:                     # TLC integers are 32-bit: counts of 10^8 and more (only a badly superlinear tree
         if t['kind'] == 'ratio':         # gets there) are divided exactly by a fixed unit; the ratios are unchanged
             t['unit'] = 1
@@ -260,7 +266,7 @@ def main(tier, replay=None):
              'rule': 'one record per (family, api): call counts at n, 2n, 4n%s under sys.setprofile judged by Trace_Work.tla '
                      '(H_LinearWork, eps = 15%%); primitive lengths (token queue, simple-key table, reader buffer, emitter '
                      'queue) judged against the model bounds with MaxKey = 1024 and the observed read size' % ('' if quick else ', 8n'),
-             'design_configurations': per_cfg, 'negative_controls_rejected': negres,
+             'family_members_rejected': len(failed), 'design_configurations': per_cfg, 'negative_controls_rejected': negres,
              'actions_fired': {'%s.%s' % k: n for k, n in sorted(fired.items())},
              'worst_ratios': [{'family': f, 'api': a, 'n': n, 'ratio': round(r_, 4), 'counts': w} for r_, f, a, n, w in worst[:5]],
              'samples': [{'family': t['family'], 'api': t['api'], 'n': t['n'], 'counts': t.get('w') or
